@@ -1,7 +1,7 @@
 """C08 — the live topic state and the stored state never diverge."""
 from props import topic_common as tc
 
-KINDS = ["NewGrp", "Sub", "Leave", "SetSelf", "SetOther", "DelSub", "SetDesc", "Pub", "Note", "Unload"]
+KINDS = ["NewGrp", "Sub", "Leave", "SetSelf", "SetOther", "DelSub", "SetDesc", "Pub", "Note", "DelMsg", "Unload", "Reload"]
 BASE = ["NewGrp", "Sub", "Leave", "SetSelf", "SetOther", "Pub", "Note", "Unload"]
 
 
@@ -11,4 +11,5 @@ def run(ctx):
         want=["-", "N", "JR", "JRW", "JW", "JRWPASD"], given=["-", "N", "JR", "JRW", "JRWPAS", "JRWPASDO"],
         u1_quick={"want": ["-", "N", "JRW"], "given": ["-", "N", "JRW"], "kinds": BASE, "maxseq": 1, "nusers": 2},
         u1_thorough={"want": ["-", "N", "JRW", "JW"], "given": ["-", "N", "JRW"], "kinds": BASE, "maxseq": 2, "nusers": 2},
-        sim_quick={"num": 150, "depth": 14}, sim_thorough={"num": 1500, "depth": 18})
+        faults={"quick": 120, "thorough": 3000, "modes": ("error", "crash")},
+        sim_quick={"num": 120, "depth": 14}, sim_thorough={"num": 1500, "depth": 18})
